@@ -379,6 +379,67 @@ func (m *ModelStore) GetTransaction(ctx context.Context, txID *big.Int) (*ledger
 // InsertLogs is called by the batch worker. The gate in front of it is the
 // persistence latency; the scheduler decides whether the batch commits, fails
 // (store fault) or disappears (the generation is dead).
+// snapshot copies a log entry the way an insertion into a database does: what is stored is the content at the
+// moment of the insertion, whatever happens afterwards to the objects the engine keeps in memory.
+func snapshot(l *ledger.ChainedLog) *ledger.ChainedLog {
+	big2 := func(v *big.Int) *big.Int {
+		if v == nil {
+			return nil
+		}
+		return new(big.Int).Set(v)
+	}
+	tx2 := func(tx *ledger.Transaction) *ledger.Transaction {
+		if tx == nil {
+			return nil
+		}
+		c := *tx
+		c.ID = big2(tx.ID)
+		c.Postings = make(ledger.Postings, len(tx.Postings))
+		for i, p := range tx.Postings {
+			c.Postings[i] = p
+			c.Postings[i].Amount = big2(p.Amount)
+		}
+		if tx.Metadata != nil {
+			c.Metadata = metadata.Metadata{}
+			for k, v := range tx.Metadata {
+				c.Metadata[k] = v
+			}
+		}
+		return &c
+	}
+	id2 := func(v any) any {
+		if b, ok := v.(*big.Int); ok {
+			return big2(b)
+		}
+		return v
+	}
+	out := *l
+	out.ID = big2(l.ID)
+	out.Hash = append([]byte(nil), l.Hash...)
+	switch p := l.Data.(type) {
+	case ledger.NewTransactionLogPayload:
+		am := ledger.AccountMetadata(nil)
+		if p.AccountMetadata != nil {
+			am = ledger.AccountMetadata{}
+			for acc, m := range p.AccountMetadata {
+				am[acc] = copyMeta(m)
+			}
+		}
+		out.Data = ledger.NewTransactionLogPayload{Transaction: tx2(p.Transaction), AccountMetadata: am}
+	case ledger.RevertedTransactionLogPayload:
+		out.Data = ledger.RevertedTransactionLogPayload{RevertedTransactionID: big2(p.RevertedTransactionID), RevertTransaction: tx2(p.RevertTransaction)}
+	case ledger.SetMetadataLogPayload:
+		var md metadata.Metadata
+		if p.Metadata != nil {
+			md = copyMeta(p.Metadata)
+		}
+		out.Data = ledger.SetMetadataLogPayload{TargetType: p.TargetType, TargetID: id2(p.TargetID), Metadata: md}
+	case ledger.DeleteMetadataLogPayload:
+		out.Data = ledger.DeleteMetadataLogPayload{TargetType: p.TargetType, TargetID: id2(p.TargetID), Key: p.Key}
+	}
+	return &out
+}
+
 func (m *ModelStore) InsertLogs(ctx context.Context, logs ...*ledger.ChainedLog) error {
 	res := m.sim.gateCtx(ctx, fmt.Sprintf("store.InsertLogs[%d]", len(logs)))
 	gen := -1
@@ -402,6 +463,7 @@ func (m *ModelStore) InsertLogs(ctx context.Context, logs ...*ledger.ChainedLog)
 	m.Attempts = append(m.Attempts, att)
 	batch := len(m.Attempts) - 1
 	for _, l := range logs {
+		l = snapshot(l)
 		m.fold.Apply(l, len(m.Entries))
 		m.Entries = append(m.Entries, Persisted{Log: l, Batch: batch, Gen: gen, Step: att.Step})
 	}
